@@ -17,7 +17,8 @@ import RV.C09.Tables
   declared fragment (printable ASCII + ASCII white space; `inFragment` below — the
   driver answers `unmodelled` outside it):
     `int(str)`        strip white space, sign, digit groups separated by single `_`
-    `Decimal(str)`    strip, drop every `_`, sign, digits[.digits] | .digits, exponent
+    `Decimal(str)`    strip, drop every `_`, sign, digits[.digits] | .digits, exponent (NaN / sNaN / Infinity are
+                      refused by rdflib's `_parse_xsd_decimal`, fix C09-F13: `pyDecimal` = the finite values)
     `"{:f}".format(Decimal)`, `str(int)`, `date/time/datetime.isoformat()`
     `date.fromisoformat`   YYYY-MM-DD | YYYYMMDD (week dates are outside the fragment)
     `time/datetime.fromisoformat` on the XSD-shaped fragment `hh:mm:ss[.f+][Z|±hh:mm]`
@@ -651,7 +652,7 @@ def Dt.conv : Dt → Conv
   | .base64Binary => .b64
 
 def Conv.tableName : Conv → String
-  | .none => "none" | .int => "int" | .decimal => "Decimal" | .boolean => "_parseBoolean"
+  | .none => "none" | .int => "int" | .decimal => "_parse_xsd_decimal" | .boolean => "_parseBoolean"
   | .date => "parse_xsd_date" | .time => "time.fromisoformat" | .dateTime => "datetime.fromisoformat"
   | .duration => "parse_xsd_duration" | .hex => "_unhexlify" | .b64 => "b64decode"
 
